@@ -5,6 +5,8 @@
 
 (define-syntax let
     (syntax-rules ()
+        ((let () body ...)
+            ((lambda () body ...)))
         ((let ((name val) ...) body ...)
             ((lambda (name ...) body ...)
                 val ...))))
@@ -100,12 +102,16 @@
 
 (define-syntax when
       (syntax-rules ()
+        ((when test result1)
+         (if test result1))
         ((when test result1 result2 ...)
          (if test
              (begin result1 result2 ...)))))
 
 (define-syntax unless
       (syntax-rules ()
+        ((unless test result1)
+         (if (not test) result1))
         ((unless test result1 result2 ...)
          (if (not test)
              (begin result1 result2 ...)))))
